@@ -189,7 +189,9 @@ def check_ring_tuple(L, t, pre):
     b = smiread.bonds_of(atoms)
     last = n - 1
     order = {"": 1, "=": 2, "#": 3}.get(pre, 1)
-    # last chain atom after a single bond is in state 3 -> ring order = min(order, 3)
+    # the last chain atom is in state 3, but the partner is a mid-chain carbon with two free valences, so the
+    # second pass clips the ring bond to order 2 (minimal bond-order reduction)
+    order = min(order, 2)
     if q == 0:
         exp = {(last - 1, last): min(3, 1 + order)}
     else:
